@@ -303,7 +303,7 @@ def bitfield_family(rnd, thorough):
         seqs.add((1, total + rnd.randrange(1, 9)))
         for ws in sorted(seqs):
             for before in neighbours:
-                for after in (None, A.t_int("uint16")):
+                for after in (None, A.t_int("uint16"), A.t_int("uint8")):      # uint8: any spurious alignment after the unit shows (F58)
                     fields = []
                     if before is not None:
                         fields.append(A.field("pre", before))
@@ -327,7 +327,12 @@ def c06_extra(rep, rnd, first_id):
     types = bitfield_family(rnd, thorough)
     if not thorough:
         wide = [t for t in types if any(f["bits"] > 8 * A_.Storage_size(f["type"]) for f in t["fields"] if f["bits"])]
-        types = rnd.sample(types, 400) + rnd.sample(wide, min(60, len(wide)))
+        # units whose size is not their alignment (24 / 48 bit), shared by several fields, behind a dynamic member and followed by
+        # a byte: every spurious or missing alignment inside the unit moves that byte (finding F58)
+        odd = [t for t in types if t["fields"][0]["name"] == "pre" and t["fields"][0]["type"]["k"] in ("arr", "leb")
+               and t["fields"][-1]["name"] == "post" and t["fields"][-1]["type"]["name"] == "uint8"
+               and sum(1 for f in t["fields"] if f["bits"]) >= 2 and A_.Storage_size(t["fields"][1]["type"]) in (3, 6)]
+        types = rnd.sample(types, 400) + rnd.sample(wide, min(60, len(wide))) + rnd.sample(odd, min(60, len(odd)))
     out = []
     for t in types:
         mode = {"endian": rnd.choice("<>"), "align": rnd.random() < 0.5, "ptr": 8}
